@@ -77,6 +77,8 @@ type Model struct {
 	atomics    []Event
 	deletions  []Event
 	opHits     int64
+	nestHits   int64 // lookups recorded by no-op computations run from inside a loader
+	nestMisses int64
 	opMisses   int64
 	opLoadOK   int64
 	opLoadFail int64
@@ -208,6 +210,7 @@ func (m *Model) begin(op *Op) {
 	m.atomics = m.atomics[:0]
 	m.deletions = m.deletions[:0]
 	m.opHits, m.opMisses, m.opLoadOK, m.opLoadFail = 0, 0, 0, 0
+	m.nestHits, m.nestMisses = 0, 0
 	m.evStats = m.evStats[:0]
 	m.removed = m.removed[:0]
 	m.mm = nil
@@ -637,6 +640,17 @@ func (m *Model) walk(log []Event) {
 			}
 		case EvExecPanic:
 			m.execPanics++
+		case EvNested:
+			cur := m.live(ev.Key)
+			if ev.Found != (cur != nil) || (cur != nil && cur.v != ev.Old) {
+				m.fail("load", "%s while the key's load was in flight, the model holds %s", ev, entStr(cur))
+				return
+			}
+			if ev.Found {
+				m.nestHits++
+			} else {
+				m.nestMisses++
+			}
 		}
 	}
 }
